@@ -192,6 +192,20 @@ def failures (r : RView) (v : View) : List String :=
 
 def viewOk (r : RView) (v : View) : Bool := failures r v == []
 
+/-! ### domain of the property -/
+
+def posCounts (l : AList Nat) : Bool := l.all fun e => e.2 > 0
+
+/-- what every contribution computed by the analyzer satisfies: counts are positive, a
+    tag with value counts has at least one value, payee templates have one entry per payee. -/
+def contribOk (c : Contrib) : Bool :=
+  posCounts c.ac && posCounts c.pc && posCounts c.cc && posCounts c.tc &&
+  c.tvc.all (fun e => !e.2.isEmpty && posCounts e.2) && decide (c.pts.keys = dedup c.pts.keys)
+
+/-- a directory: distinct non-empty names, well-formed contributions. -/
+def fsOk (fs : FS) : Bool :=
+  decide (fs.keys = dedup fs.keys) && fs.all fun e => e.1 ≠ "" && contribOk e.2
+
 /-! ### guards of the known findings -/
 
 /-- the format a file's own directives give a commodity (its last directive with a format). -/
